@@ -1,0 +1,49 @@
+// Copyright 2020-2025 Buf Technologies, Inc.
+//
+// Licensed under the Apache License, Version 2.0 (the "License");
+// you may not use this file except in compliance with the License.
+// You may obtain a copy of the License at
+//
+//      http://www.apache.org/licenses/LICENSE-2.0
+//
+// Unless required by applicable law or agreed to in writing, software
+// distributed under the License is distributed on an "AS IS" BASIS,
+// WITHOUT WARRANTIES OR CONDITIONS OF ANY KIND, either express or implied.
+// See the License for the specific language governing permissions and
+// limitations under the License.
+
+//go:build verif
+
+package bufmodulecache
+
+// Contracts for the gocv verifier (see /verif/DESIGN.md). Comment-only. (author ca-U)
+//
+// C09, the caching provider. The store and the delegate are function values: their results are arbitrary here (a function
+// value cannot carry a contract), a call that reports an error raises ghost.fail. What the sequential code guarantees:
+//   - errors-returned: an error of the store (get, put, second get) or of the delegate is returned;
+//   - fetch-put-reread (ghost.u_stage): a successful call fetched from the delegate, then put into the store, then read the
+//     store again, in this order;
+//   - none-missing-after-put: a key still missing after the put never reaches the result: it is an error;
+//   - values-for-requested-keys / in-key-order: every returned value carries the commit ID of a requested key, and the values
+//     are ordered like the keys they belong to. The commit-ID functions are fields of p; the uncontracted callbacks havoc the
+//     modelled heap, so the key function is the one at entry (old(..)) and the value function the one at return - the fields
+//     are never assigned after construction, which the heap model cannot express.
+// NOT claimed: len(r) == len(keys). With an arbitrary store this does not hold (a store answering "found: none, not found:
+// none" yields an empty result); it needs the store's partition property, which is proved for the two real stores
+// (bufmodulestore: GetModuleDatasForModuleKeys#post[partition], GetCommitsFor*#post[partition]) but cannot be attached to a
+// function value.
+//@ func (p *baseProvider) getValuesForKeys(ctx, keys) (r, err)
+//@   property C09
+//@   modifies heap, ghost.fail, ghost.wfail, ghost.u_stage
+//@   ghost before "commitIDToIndexedKey, err := slicesext.ToUniqueIndexedValuesMap(" u_stage := 0
+//@   ghost after "delegateValues, err := p.delegateGetValuesForKeys(" u_stage := ite(ghost.u_stage == 0, 1, 0 - 1)
+//@   ghost after "if err := p.storePutValues(" u_stage := ite(ghost.u_stage == 1, 2, 0 - 1)
+//@   ghost after "delegateValues, delegateNotFoundKeys, err = p.storeGetValuesForKeys(ctx, notFoundKeys)" u_stage := ite(ghost.u_stage == 2, 3, 0 - 1)
+//@   ensures fetch-put-reread: err == nil ==> ghost.u_stage == 3
+//@   callback pure keyToCommitID
+//@   callback pure valueToCommitID
+//@   ensures errors-returned: ghost.fail && !old(ghost.fail) ==> err != nil
+//@   assert before "p.keysRetrieved.Add(" none-missing-after-put: len(delegateNotFoundKeys) == 0
+//@   closure 0 ensures matched-to-requested-key: err == nil ==> r.Value == value && p.valueToCommitID(value) in commitIDToIndexedKey && r.Index == commitIDToIndexedKey[p.valueToCommitID(value)].Index
+//@   ensures values-for-requested-keys: err == nil ==> (forall a int :: 0 <= a && a < len(r) ==> (exists i int :: 0 <= i && i < len(keys) && p.valueToCommitID(r[a]) == old(p.keyToCommitID(keys[i]))))
+//@   ensures in-key-order: err == nil ==> (forall a int, b int :: 0 <= a && a < b && b < len(r) ==> (exists i int, j int :: 0 <= i && i <= j && j < len(keys) && p.valueToCommitID(r[a]) == old(p.keyToCommitID(keys[i])) && p.valueToCommitID(r[b]) == old(p.keyToCommitID(keys[j]))))
